@@ -310,6 +310,10 @@ class ExprMixin(EngineBase):
             if isinstance(a, Tup) and isinstance(b, Tup):
                 yield st, Tup(a.items + b.items)
                 return
+            if isinstance(a, Ref) and isinstance(b, Ref) and st.obj(a).kind == "list" and st.obj(b).kind == "list":
+                st2, r = self.alloc(st, "list", None, items=tuple(st.obj(a).get("items")) + tuple(st.obj(b).get("items")))
+                yield st2, r      # a new list: the elements of both, in order
+                return
         if isinstance(op, ast.Sub) and V.is_int(a) and V.is_int(b):
             yield st, a - b
             return
